@@ -343,13 +343,11 @@ class BlockBase:
         backend = self.backend
         _sum = ar.get_lib_fn(backend, "sum")
         _abs = ar.get_lib_fn(backend, "abs")
-        return (
-            functools.reduce(
-                operator.add,
-                (_sum(_abs(x) ** 2) for x in self.blocks.values()),
-            )
-            ** 0.5
-        )
+        norms2 = tuple(_sum(_abs(x) ** 2) for x in self.blocks.values())
+        if not norms2:
+            # no stored blocks: the array is identically zero
+            return 0.0
+        return functools.reduce(operator.add, norms2) ** 0.5
 
     def __repr__(self):
         return "".join(
